@@ -118,11 +118,16 @@ func elemClasses(er elemRead) (accept, reject []ival, problems []string) {
 		if len(cur) == 0 {
 			return
 		}
-		if b == h {
+		if b == h && len(onPath) > 0 {
 			accept = append(accept, cur...)
 			return
 		}
 		if onPath[b] {
+			if b == er.blk {
+				// a rotated loop: the block that reads the element is re-entered for the next element
+				accept = append(accept, cur...)
+				return
+			}
 			problems = append(problems, fmt.Sprintf("an inner loop (block %d) takes part in the decision", b.Index))
 			return
 		}
@@ -152,9 +157,19 @@ func elemClasses(er elemRead) (accept, reject []ival, problems []string) {
 				}
 			}
 		case *ssa.If:
+			if !body[b] {
+				problems = append(problems, fmt.Sprintf("the decision leaves the loop at block %d before a verdict", b.Index))
+				return
+			}
 			for i, s := range b.Succs {
 				with, related := elemAtom(condAtom(t.Cond, i == 0), er.val)
 				if !related {
+					// the latch of a rotated loop: one way back to the element read, the other out of the loop when the
+					// elements are exhausted — this element passed
+					if other := b.Succs[1-i]; !body[s] && (other == h || other == er.blk) {
+						accept = append(accept, cur...)
+						continue
+					}
 					dfs(s, cur, onPath)
 					continue
 				}
